@@ -366,6 +366,10 @@ impl std::str::FromStr for Relation {
             loop {
                 match tokens.next() {
                     Some((IDENT, s)) => archs.push(s),
+                    Some((NOT, _)) => match tokens.next() {
+                        Some((IDENT, s)) => archs.push(format!("!{}", s)),
+                        _ => return Err("Expected architecture name".to_string()),
+                    },
                     Some((WHITESPACE, _)) => {}
                     Some((R_BRACKET, _)) => break,
                     _ => return Err("Expected architecture name".to_string()),
